@@ -10,7 +10,7 @@ Overview: Provides CLI commands for code smell detection: dry finds duplicate co
     options and integrates with the orchestrator for execution.
 
 Dependencies: click for CLI framework, src.cli.main for CLI group, src.cli.utils for shared utilities,
-    src.cli.linters.shared for linter-specific helpers, yaml for config loading
+    src.cli.linters.shared for linter-specific helpers
 
 Exports: dry command, magic_numbers command, stringly_typed command
 
@@ -25,10 +25,9 @@ Suppressions:
 
 import sys
 from pathlib import Path
-from typing import TYPE_CHECKING, Any, NoReturn
+from typing import TYPE_CHECKING, NoReturn
 
 import click
-import yaml
 from loguru import logger
 
 from src.cli.linters.shared import (
@@ -43,6 +42,7 @@ from src.cli.utils import (
     format_option,
     get_project_root_from_context,
     handle_linting_error,
+    load_config_file,
     parallel_option,
     setup_base_orchestrator,
     validate_paths_exist,
@@ -70,19 +70,8 @@ def _setup_dry_orchestrator(
 
 def _load_dry_config_file(orchestrator: "Orchestrator", config_file: str, verbose: bool) -> None:
     """Load DRY configuration from file."""
-    config_path = Path(config_file)
-    if not config_path.exists():
-        click.echo(f"Error: Config file not found: {config_file}", err=True)
-        sys.exit(2)
-
-    with config_path.open("r", encoding="utf-8") as f:
-        config: dict[str, Any] = yaml.safe_load(f) or {}  # an empty file configures nothing
-
-    try:
-        dry_config = config["dry"]
-    except KeyError:
-        return  # No DRY config in file
-    orchestrator.config.update({"dry": dry_config})
+    # Same loader as every other command: format by suffix, either key spelling, top-level ignore list
+    load_config_file(orchestrator, config_file, verbose)
     logger.debug(f"Loaded DRY config from {config_file}")
 
 
